@@ -51,11 +51,13 @@ fn main() {
                 "C06" => props::c06::run(&mut rep),
                 "C07" => props::eps::c07(&mut rep),
                 "C08" => props::eps::c08(&mut rep),
+                "C10" => props::diff::c10(&mut rep),
                 "C11" => props::c11::run(&mut rep),
                 "C12" => props::eps::c12(&mut rep),
                 "C13" => props::eps::c13(&mut rep),
                 "C14" => props::eps::c14(&mut rep),
                 "C15" => props::eps::c15(&mut rep),
+                "C16" => props::diff::c16(&mut rep),
                 "C17" => props::c17::run(&mut rep),
                 "C19" => props::eps::c19(&mut rep),
                 "C09" => props::c09::run(&mut rep),
@@ -87,6 +89,7 @@ fn main() {
                 "C06" => props::c06::replay(&config, &labels),
                 "C07" | "C08" | "C12" | "C13" | "C14" | "C15" | "C19" => props::eps::replay(&config, &labels),
                 "C09" => props::c09::replay(&v),
+                "C10" | "C16" => props::diff::replay(&config, &labels),
                 "C11" => props::c11::replay(&v),
                 "C17" => props::c17::replay(&config, &labels),
                 "C20" => props::c20::replay(&config, &labels),
